@@ -19,7 +19,10 @@ EXTRA = {"C02-B": ["C01", "C08"], "C08-A": ["C01"], "C12-A": [], "C05-A": ["C09"
          # wave 6
          "C01-L": ["C14"], "C02-L": ["C18"], "C03-L": ["C01"], "C04-L": ["C02"], "C06-K": ["C07"], "C06-L": ["C16"], "C07-K": ["C06"], "C07-L": ["C16"],
          "C08-K": ["C02"], "C08-L": ["C14"], "C15-K": ["C12"], "C15-L": ["C12"], "C18-K": ["C02"], "C18-L": ["C01"], "C10-K": ["C16"],
-         "C13-L": ["C07", "C08"], "C11-K": ["C17"], "C16-L": ["C06", "C07"], "C17-K": ["C19"], "C09-L": ["C11"], "C12-K": ["C16"]}
+         "C13-L": ["C07", "C08"], "C11-K": ["C17"], "C16-L": ["C06", "C07"], "C17-K": ["C19"], "C09-L": ["C11"], "C12-K": ["C16"],
+         # wave 7
+         "C02-N": ["C08"], "C04-N": ["C02"], "C20-M": ["C02"], "C13-N": ["C09"], "C15-N": ["C03"], "C19-M": ["C16"], "C16-N": ["C07", "C06"], "C05-N": ["C15"],
+         "C17-N": ["C19"], "C12-N": ["C10"]}
 tier = sys.argv[1] if len(sys.argv) > 1 else "quick"
 ids = sys.argv[2:] or sorted(os.path.basename(d) for d in glob.glob(VERIF + "/seeded/C*"))
 manifest = json.load(open(VERIF + "/MANIFEST.json"))
